@@ -35,6 +35,8 @@ CONSTANTS
   IpArgs,       \* literal operands of in-place operators
   Faults,       \* BOOLEAN: enable fault actions
   Extras,       \* BOOLEAN: enable freeze/unfreeze/stutter/unregister/register actions
+  Transfers,    \* BOOLEAN: enable pickle / dump+load / copy_expr_from / gen_fun actions (C11, C12, C13)
+  KeepLoc, KeepExpr,   \* the pre-existing definition of the copy_keep transfer
   MaxDepth,
   EmitIdx       \* BOOLEAN: attach derived index supports to every emitted label
 
@@ -302,6 +304,69 @@ SetExprFault(l, e) ==
   /\ SetExprOK(l, e) /\ ~frozen
   /\ FaultUpdate([a |-> "SetExpr", l |-> l, e |-> e], l, [defs EXCEPT ![l] = e], [mem EXCEPT ![l] = Eval(e, mem)])
 
+
+---------------------------------------------------------------------------
+(* Transfers (C11, C12): the manager is reproduced in a second manager and the behaviour continues there.   *)
+(*   pickle_copy / pickle_orig : pickle.loads(pickle.dumps(m)); continue on the copy / on the original,     *)
+(*                               the other one must stay as it was (independence)                           *)
+(*   dumpload   : fresh manager over equal containers, load(dump())          (only expression tasks travel) *)
+(*   copy_plain : fresh manager, copy_expr_from(old, "s")                                                    *)
+(*   copy_bind  : fresh manager whose container holds the data one level down, copy_expr_from(old, "s",     *)
+(*                bindings = {s: t['sub']}): every location is rebased, definitions are the same            *)
+(*   copy_keep  : as copy_plain with overwrite = FALSE into a manager that already defines KeepLoc by       *)
+(*                KeepExpr: that definition survives, the others are copied.  load() registers without       *)
+(*                running, so the dependants of KeepLoc are stale until it is assigned again (ghost).        *)
+Picklable == \A t \in reg : TaskSpec[t].kind # "fn"          \* a FunctionTask closure is not picklable
+
+Transfer(kind) ==
+  LET a == [a |-> "Transfer", kind |-> kind] IN
+  /\ ~frozen
+  /\ CASE kind \in {"pickle_copy", "pickle_orig"} ->
+            /\ Picklable /\ Unchanged /\ last' = a @@ [exc |-> "none"]
+       [] kind \in {"dumpload", "copy_plain", "copy_bind"} ->
+            /\ reg' = {} /\ UNCHANGED <<mem, defs, kprev, frozen, ghost>> /\ last' = a @@ [exc |-> "none"]
+       [] kind = "copy_keep" ->
+            LET D1 == [defs EXCEPT ![KeepLoc] = KeepExpr] IN
+            /\ Acyclic(D1, {})
+            /\ defs' = D1
+            /\ reg' = {}
+            /\ mem' = [mem EXCEPT ![KeepLoc] = Eval(KeepExpr, mem)]
+            /\ ghost' = {x \in Leaf : x \in ghost \/ x = KeepLoc}
+            /\ UNCHANGED <<kprev, frozen>>
+            /\ last' = a @@ [exc |-> "none", keeploc |-> KeepLoc, keepexpr |-> KeepExpr]
+
+(* gen_fun (C13): the generated setter for the argument references args, called with vals, is DEFINED as    *)
+(* assigning vals[i] to args[i] one after the other; the batch formulation the code uses (write all, then   *)
+(* run the union of the triggered sets once, in an allowed order) must agree with it.                       *)
+RECURSIVE SeqAssign(_, _, _)
+SeqAssign(s, args, vals) ==
+  IF args = <<>> THEN s
+  ELSE LET l  == Head(args)
+           m1 == [s.m EXCEPT ![l] = Head(vals)]
+           T  == Triggered(defs, reg, l)
+           q  == CHOOSE o \in Allowed(defs, T) : TRUE
+       IN SeqAssign(RunSeq(defs, [m |-> m1, kp |-> s.kp], q), Tail(args), Tail(vals))
+
+GenFun(args, vals) ==
+  LET n  == Len(args)
+      m1 == [x \in Leaf |-> IF \E i \in 1..n : args[i] = x THEN vals[CHOOSE i \in 1..n : args[i] = x] ELSE mem[x]]
+      T  == UNION {Triggered(defs, reg, args[i]) : i \in 1..n}
+      q  == CHOOSE o \in Allowed(defs, T) : TRUE
+      batch == RunSeq(defs, [m |-> m1, kp |-> kprev], q)
+      seqr  == SeqAssign([m |-> mem, kp |-> kprev], args, vals)
+  IN /\ reg = {} /\ ~frozen
+     /\ \A i \in 1..n : defs[args[i]] = NoDef
+     /\ Assert(batch.m = seqr.m, <<"gen_fun: batch and sequential formulations differ", args, vals>>)
+     /\ mem' = seqr.m
+     /\ ghost' = {x \in Leaf : x \in ghost /\ \A i \in 1..n : args[i] # x}
+     /\ UNCHANGED <<defs, reg, kprev, frozen>>
+     /\ last' = [a |-> "GenFun", args |-> args, vals |-> vals, exc |-> "none", trig |-> AsSeq(T), prec |-> AsSeq(Prec(defs, T)),
+                 cyc |-> StructCyclic(defs, T)]
+
+Xfer == \/ \E kind \in {"pickle_copy", "pickle_orig", "dumpload", "copy_plain", "copy_bind", "copy_keep"} : Transfer(kind)
+        \/ \E l1 \in Leaf : \E v1 \in ValsOf[l1] : GenFun(<<l1>>, <<v1>>)
+        \/ \E l1, l2 \in Leaf : \E v1 \in ValsOf[l1] : l1 # l2 /\ GenFun(<<l1, l2>>, <<v1, CHOOSE v \in ValsOf[l2] : TRUE>>)
+
 ---------------------------------------------------------------------------
 Core == \/ \E l \in Leaf : \E v \in ValsOf[l] : SetValue(l, v)
         \/ \E l \in ExprTargets : \E e \in Menu : SetExpr(l, e)
@@ -321,6 +386,7 @@ Next == /\ depth < MaxDepth
         /\ \/ Core
            \/ (Extras /\ Extra)
            \/ (Faults /\ Fault)
+           \/ (Transfers /\ Xfer)
 
 Spec == Init /\ [][Next]_vars
 
@@ -353,7 +419,7 @@ C17Refuse == [][(frozen /\ last'.a \in {"SetExpr", "Unregister", "RegisterTask"}
 C18Prop == [][last'.exc = "Fault" => (reg' = reg /\ frozen' = frozen /\ last'.l \in ghost')]_vars
 
 (* C02: the triggered set is closed under reported edges, contains every direct dependant, nothing else *)
-C02Prop == [][("trig" \in DOMAIN last') =>
+C02Prop == [][("trig" \in DOMAIN last' /\ "l" \in DOMAIN last') =>
                LET T == {last'.trig[i] : i \in 1..Len(last'.trig)} IN
                /\ \A t \in T : t \in Act(defs', reg')
                /\ \A u \in T : \A t \in Act(defs', reg') : Reported(defs', u, t) => t \in T
